@@ -251,6 +251,23 @@ def run(tier, seed):
                                 if bad:
                                     ck.fail('a hardware-diagnostics section inside a PEL does not show what its parser gives for (subtype, version, payload)',
                                             rp2 | {'members': bad[:4]}, 'pel_section')
+                # ---- a chip data file rewritten IN PLACE between two decodes of one process: names come from the file as it is NOW
+                if chips and 'desc' in chips[0]['model_ec']:
+                    a0 = int(chips[0]['model_ec']['id'], 16)
+                    target = os.path.realpath(os.path.join(tmp, 'chip0.json'))
+                    before = ParserData().get_signature('%08X' % a0, '00010200', '00010203')
+                    changed = json.loads(json.dumps(chips[0]))
+                    changed['model_ec']['desc'] = 'REWRITTEN ' + changed['model_ec']['desc']
+                    st = os.stat(target)
+                    with open(target, 'w') as f:
+                        json.dump(changed, f)
+                    os.utime(target, ns=(st.st_atime_ns, st.st_mtime_ns))
+                    after = ParserData().get_signature('%08X' % a0, '00010200', '00010203')
+                    ck.case(key=('rewritten chip data', rnd))
+                    ck.count('chip data file rewritten in place between decodes')
+                    if ('(REWRITTEN ' + chips[0]['model_ec']['desc'] + ')') not in str(after.get('Chip Desc')):
+                        ck.fail('after a chip data file was rewritten in place, a later decode in the same process still shows the old description',
+                                {'op': 'rewritten-chip-data', 'words': ['%08X' % a0, '00010200', '00010203'], 'before': str(before)[:200], 'after': str(after)[:200]}, 'stale_chipdata')
             finally:
                 shutil.rmtree(tmp, ignore_errors=True)
     finally:
